@@ -292,37 +292,39 @@ func checkC17(c *Ctx) {
 		ctor := p.Func("drivers/testdrv", "New")
 		c.Fn(FuncName(listen))
 		c.Fn(FuncName(send))
-		// (a) fields written by the returned stop closure
-		written := map[*types.Var]bool{}
-		for _, sf := range stopFunctions(p, listen) {
-			for _, g := range p.Reachable(sf) {
-				if InModule(g) {
-					collectStores(g, written)
-				}
-			}
-		}
-		if len(written) == 0 {
-			c.Unk("C17.4", "stop closure of the in-memory driver", "-", "stop closure writes no field (cannot stop?)")
-		}
-		for fv := range written {
-			stores := map[ssa.Instruction]bool{}
-			for _, b := range listen.Blocks {
-				for _, in := range b.Instrs {
-					if st, ok := in.(*ssa.Store); ok && fieldVar(st.Addr) == fv {
-						stores[st] = true
+		// (a), (c): what Listen re-initialises and what Send consults is decided on lifecycle histories run on the
+		// abstract machine (testdrvHistories below); until round 5 two syntactic rules stood here ("fields written by the
+		// stop closure are stored by Listen", "Send branches on such a field before feeding the decoder")
+		testdrvHistories(c, "C17.4")
+		// the listener runs inside the decoder call, on the sender's goroutine: whatever lock of the driver is held at that
+		// call is held while user code runs, and a listener that calls back into the driver (MIDI thru: Send from the
+		// callback; stopping from the callback) would wait for itself
+		if sp := p.Pkg("drivers/testdrv"); sp != nil {
+			tfns := pkgFuncsWithClosures(sp, p)
+			tla := NewLockAnalysis(p, tfns)
+			nFeed := 0
+			for _, fn := range tfns {
+				for _, call := range calls(fn) {
+					cal := call.Common().StaticCallee()
+					if cal == nil || cal.Name() != "EachMessage" || cal.Signature.Recv() == nil {
+						continue
 					}
+					nFeed++
+					tla.Run(fn)
+					held := tla.stateAt(fn, call.(ssa.Instruction))
+					var hs []string
+					for k, v := range held.held {
+						if v > 0 {
+							hs = append(hs, k)
+						}
+					}
+					sort.Strings(hs)
+					c.Check(len(hs) == 0, "C17.4", "decoder fed outside the driver's locks in "+FuncName(fn), p.Pos(call.Pos()), "no lock held while the listener may run", "the decoder (and with it the listener callback) runs while "+strings.Join(hs, ", ")+" is held: a listener that sends or stops from inside the callback deadlocks on it")
 				}
 			}
-			ok := len(stores) > 0
-			for _, r := range allReturns(listen) {
-				if !isNilConst(retVal(r, len(r.Results)-1)) {
-					continue
-				}
-				if canReachFromEntryAvoiding(listen, r, stores) {
-					ok = false
-				}
+			if nFeed == 0 {
+				c.Unk("C17.4", "decoder feed site of the in-memory driver", "-", "no EachMessage call found in package testdrv")
 			}
-			c.Check(ok, "C17.4", "Listen re-initialises "+fv.Name()+" (written by its stop function)", p.Pos(listen.Pos()), "every successful path of Listen stores the field", "the stop function sets "+fv.Name()+" but Listen never resets it: after stop + listen again nothing is delivered")
 		}
 		// (b) pointer fields of Driver not initialised by the constructor
 		initd := map[*types.Var]bool{}
@@ -406,36 +408,6 @@ func checkC17(c *Ctx) {
 			}
 			_ = n
 		}
-		// (c) Send consults the stop flag before feeding the decoder
-		var feed ssa.Instruction
-		for _, call := range calls(send) {
-			if f := call.Common().StaticCallee(); f != nil && f.Name() == "EachMessage" {
-				feed = call
-			}
-		}
-		okFlag := false
-		if feed != nil {
-			for fv := range written {
-				for _, b := range send.Blocks {
-					if len(b.Instrs) == 0 {
-						continue
-					}
-					iff, ok := b.Instrs[len(b.Instrs)-1].(*ssa.If)
-					if !ok {
-						continue
-					}
-					l, ok := iff.Cond.(*ssa.UnOp)
-					if !ok || fieldVar(l.X) != fv {
-						continue
-					}
-					_, fe := ifEdges(iff)
-					if edgeDominates(send, fe, feed.Block()) || fe.to == feed.Block() {
-						okFlag = true
-					}
-				}
-			}
-		}
-		c.Check(okFlag, "C17.4", "Send consults the stop flag before feeding the decoder", p.Pos(send.Pos()), "the decoder is fed only on the not-stopped edge", "messages are fed to the decoder although listening was stopped")
 	}
 
 	// ---------------- C17.4d: every successful Listen installs the NEW callback (all drivers.In implementations)
@@ -610,10 +582,20 @@ func effectful(in ssa.Instruction) bool {
 			return false // parameter / result spill into a local cell
 		}
 		return true
-	case *ssa.Go, *ssa.Defer, *ssa.Send, *ssa.MapUpdate:
+	case *ssa.Defer:
+		// a deferred release of a lock taken in this function is part of the lock bracket, not an effect on the port
+		if f := x.Common().StaticCallee(); f != nil && f.Pkg != nil && f.Pkg.Pkg.Path() == "sync" && (f.Name() == "Unlock" || f.Name() == "RUnlock") {
+			return false
+		}
+		return true
+	case *ssa.Go, *ssa.Send, *ssa.MapUpdate:
 		return true
 	case *ssa.Call:
 		if f := x.Common().StaticCallee(); f != nil && (f.Name() == "IsOpen" || f.Name() == "RLock" || f.Name() == "RUnlock") {
+			return false
+		}
+		// taking and releasing a mutex around the state test changes nothing about the port
+		if f := x.Common().StaticCallee(); f != nil && f.Pkg != nil && f.Pkg.Pkg.Path() == "sync" && (f.Name() == "Lock" || f.Name() == "Unlock") {
 			return false
 		}
 		if _, ok := x.Common().Value.(*ssa.Builtin); ok {
@@ -1271,4 +1253,225 @@ func storesParamToField(fn *ssa.Function, idx int, depth int) bool {
 		}
 	}
 	return true
+}
+
+// testdrvHistories (C17.4): lifecycle histories of the in-memory driver, run on the abstract machine from the real
+// constructor: each history is a sequence of Open/Close of the out port, Listen / stop on the in port and Send, with the
+// decoder's EachMessage observed (a "feed"). Reference model (the statement of C17): a Send on a closed out port returns
+// ErrPortClosed and feeds nothing; on an open out port it feeds the decoder exactly once iff a listener is active
+// (Listen succeeded and its stop function has not been called since), with the decoder built by THAT Listen; stop is
+// idempotent; listening again after a stop delivers again. Independent of how "stopped" is represented (a flag, a nil
+// decoder, a generation counter) and of where Listen / stop / Send keep their code.
+func testdrvHistories(c *Ctx, rule string) {
+	p := c.P
+	tin := p.roleT("drivers/testdrv.in")
+	tout := p.roleT("drivers/testdrv.out")
+	rT := p.namedType("drivers", "Reader")
+	ctor := p.Func("drivers/testdrv", "New")
+	confT := p.namedType("drivers", "ListenConfig")
+	if tin == nil || tout == nil || rT == nil || ctor == nil || confT == nil {
+		c.Unk(rule, "testdrv lifecycle anchors", "-", "not resolved")
+		return
+	}
+	meth := func(t types.Type, n string) *ssa.Function { return p.MethodOf(types.NewPointer(t), n) }
+	listen, send := meth(tin, "Listen"), meth(tout, "Send")
+	openOut, closeOut, openIn := meth(tout, "Open"), meth(tout, "Close"), meth(tin, "Open")
+	newReader := p.Func("drivers", "NewReader")
+	if listen == nil || send == nil || openOut == nil || closeOut == nil || openIn == nil || newReader == nil {
+		c.Unk(rule, "testdrv lifecycle methods", "-", "not resolved")
+		return
+	}
+	type op int
+	const (
+		oOpenOut op = iota
+		oCloseOut
+		oOpenIn
+		oListen
+		oStop
+		oSend
+	)
+	opName := map[op]string{oOpenOut: "out.Open", oCloseOut: "out.Close", oOpenIn: "in.Open", oListen: "Listen", oStop: "stop", oSend: "Send"}
+	histories := [][]op{
+		{oOpenOut, oOpenIn, oListen, oSend, oStop, oSend, oListen, oSend, oStop, oStop, oSend},
+		{oOpenOut, oSend, oOpenIn, oListen, oCloseOut, oSend, oOpenOut, oSend},
+		{oOpenIn, oListen, oSend, oOpenOut, oSend, oStop, oListen, oStop, oSend, oListen, oSend},
+	}
+	for hi, h := range histories {
+		var names []string
+		for _, o := range h {
+			names = append(names, opName[o])
+		}
+		key := fmt.Sprintf("in-memory driver history %d: %s", hi+1, strings.Join(names, ", "))
+		ex := NewExec(p)
+		readerOf := map[int]int{} // decoder object -> number of the Listen that built it
+		listenNo := 0
+		ex.CallHook = func(ex *Exec, st *State, fr *Frame, call ssa.CallInstruction, callee *ssa.Function, args []Val) ([]callRes, bool) {
+			if callee.Name() == "EachMessage" && callee.Signature.Recv() != nil && namedOf(callee.Signature.Recv().Type()) == namedOf(rT) {
+				ev := Event{Kind: "feed", Args: args}
+				st.Events = append(st.Events, ev)
+				return []callRes{{st: st, ret: nil}}, true
+			}
+			return nil, false
+		}
+		st := ex.NewState()
+		type world struct {
+			st      *State
+			stop    Val
+			outOpen bool
+			active  bool
+			gen     int // number of the Listen whose decoder must be fed
+		}
+		outs := ex.Call(st, ctor, []Val{&StrV{Known: true, S: "t"}}, nil)
+		if len(outs) != 1 || outs[0].Panic {
+			c.Unk(rule, key, p.Pos(ctor.Pos()), "constructor not interpretable on a single path")
+			continue
+		}
+		dp, _ := outs[0].Ret[0].(*PtrV)
+		var inP, outP *PtrV
+		if dp != nil {
+			if dv, okD := outs[0].St.heap[dp.Obj].(*StructV); okD {
+				for i := 0; i < dv.T.NumFields(); i++ {
+					if pt, okP := dv.T.Field(i).Type().(*types.Pointer); okP {
+						if types.Identical(pt.Elem(), tin) {
+							inP, _ = dv.Fields[i].(*PtrV)
+						}
+						if types.Identical(pt.Elem(), tout) {
+							outP, _ = dv.Fields[i].(*PtrV)
+						}
+					}
+				}
+			}
+		}
+		if inP == nil || outP == nil {
+			c.Unk(rule, key, p.Pos(ctor.Pos()), "ports of the constructed driver not found")
+			continue
+		}
+		worlds := []world{{st: outs[0].St}}
+		ok, why := true, ""
+		fail := func(step int, format string, a ...interface{}) {
+			if ok {
+				ok, why = false, fmt.Sprintf("step %d (%s): ", step+1, opName[h[step]])+fmt.Sprintf(format, a...)
+			}
+		}
+		for si, o := range h {
+			var next []world
+			for _, w := range worlds {
+				w.st.Events = nil
+				var res []Outcome
+				switch o {
+				case oOpenOut:
+					res = ex.Call(w.st, openOut, []Val{outP}, nil)
+				case oCloseOut:
+					res = ex.Call(w.st, closeOut, []Val{outP}, nil)
+				case oOpenIn:
+					res = ex.Call(w.st, openIn, []Val{inP}, nil)
+				case oListen:
+					listenNo++
+					conf := ex.topOf(w.st, confT, fmt.Sprintf("conf%d", listenNo))
+					res = ex.Call(w.st, listen, []Val{inP, &FuncV{Ext: fmt.Sprintf("cb%d", listenNo)}, conf}, nil)
+				case oStop:
+					if w.stop == nil {
+						fail(si, "no stop function available")
+						continue
+					}
+					fr := &Frame{fn: listen, regs: map[ssa.Value]Val{}, visits: map[*ssa.BasicBlock]int{}, widened: map[*ssa.BasicBlock]bool{}, phiHist: map[*ssa.Phi]Val{}, kept: map[*ssa.Phi]keptInv{}}
+					s2 := w.st.Clone()
+					for _, r := range ex.callValue(fr, s2, w.stop, nil, nil, nil) {
+						res = append(res, Outcome{St: r.st, Panic: r.panic, Msg: r.msg})
+					}
+				case oSend:
+					bt := ex.unknownSlice(w.st, types.Typ[types.Uint8], fmt.Sprintf("bytes%d", si), 1)
+					res = ex.Call(w.st, send, []Val{outP, bt}, nil)
+				}
+				if len(res) == 0 {
+					fail(si, "abstract interpretation did not complete")
+				}
+				for _, r := range res {
+					if r.Panic || len(problemEvents(r.St.Events)) > 0 {
+						fail(si, "may panic: %s%s", r.Msg, fmtEvents(problemEvents(r.St.Events)))
+						continue
+					}
+					nw := w
+					nw.st = r.St
+					switch o {
+					case oOpenOut:
+						nw.outOpen = true
+					case oCloseOut:
+						nw.outOpen = false
+					case oListen:
+						ev, _ := r.Ret[len(r.Ret)-1].(*IfaceV)
+						if ev == nil || !ev.Nil {
+							fail(si, "Listen may fail on this history (%s)", valString(r.Ret[len(r.Ret)-1]))
+							continue
+						}
+						nw.stop = r.Ret[0]
+						nw.active = true
+						nw.gen = listenNo
+						// the decoder(s) allocated by this Listen
+						for id, v := range r.St.heap {
+							if sv, isS := v.(*StructV); isS && ex.objType[id] != nil && types.Identical(ex.objType[id], rT) {
+								if _, seen := readerOf[id]; !seen {
+									readerOf[id] = listenNo
+								}
+								_ = sv
+							}
+						}
+					case oStop:
+						nw.active = false
+					case oSend:
+						ev, _ := r.Ret[0].(*IfaceV)
+						feeds := 0
+						for _, e := range r.St.Events {
+							if e.Kind != "feed" {
+								continue
+							}
+							feeds++
+							if rp, isP := e.Args[0].(*PtrV); isP && readerOf[rp.Obj] != nw.gen {
+								fail(si, "the bytes go to the decoder built by Listen no. %d, the active listener is no. %d", readerOf[rp.Obj], nw.gen)
+							}
+						}
+						switch {
+						case !nw.outOpen:
+							if ev == nil || ev.Nil || ev.Sentinel == "" || !strings.HasSuffix(ev.Sentinel, "ErrPortClosed") {
+								fail(si, "Send on a closed out port returns %s, expected ErrPortClosed", valString(r.Ret[0]))
+							}
+							if feeds != 0 {
+								fail(si, "Send on a closed out port still feeds the decoder")
+							}
+						case nw.active:
+							if ev == nil || !ev.Nil {
+								fail(si, "Send on an open port with an active listener returns %s", valString(r.Ret[0]))
+							}
+							if feeds != 1 {
+								fail(si, "out port open, listener active: the decoder is fed %d times, expected exactly once", feeds)
+							}
+						default:
+							if feeds != 0 {
+								fail(si, "no active listener (never started, or stopped): the decoder is still fed %d time(s) — messages are delivered after stop", feeds)
+							}
+							if ev == nil || !ev.Nil {
+								fail(si, "Send without an active listener returns %s, expected nil (the message is dropped)", valString(r.Ret[0]))
+							}
+						}
+					}
+					next = append(next, nw)
+				}
+			}
+			worlds = next
+			if len(worlds) > 64 {
+				fail(si, "too many partitions (%d)", len(worlds))
+				break
+			}
+			if len(worlds) == 0 {
+				break
+			}
+		}
+		for u := range ex.Unsupported {
+			ok, why = false, "unmodelled construct: "+u
+		}
+		if ex.Budget {
+			ok, why = false, "budget exceeded"
+		}
+		c.Check(ok, rule, key, p.Pos(send.Pos()), "every Send agrees with the reference model (closed port: ErrPortClosed; open + active listener: fed once to the active listener's decoder; otherwise dropped)", why)
+	}
 }
